@@ -57,6 +57,11 @@ func Nat(v int) string {
 	if v < 0 {
 		panic("negative nat")
 	}
+	if v > 1<<20 {
+		// a unary number of that size cannot be evaluated; every count a model can agree with is far smaller,
+		// so the saturated value still shows up as a disagreement instead of stalling vm_compute
+		v = 1 << 20
+	}
 	if v > 5000 {
 		return "(Z.to_nat " + strconv.Itoa(v) + "%Z)"
 	}
